@@ -478,6 +478,60 @@ def async_watchdog_chain(polls):
     return fn
 
 
+def serial_async_connect(w, env, nfail, cancel):
+    """The asyncio *serial* connect loop with serial_asyncio.create_serial_connection replaced by
+    a scripted coroutine function (fails nfail times with SerialException, then connects)."""
+    import asyncio
+    import serial
+    import serial_asyncio
+    from mysensors import gateway_serial
+    from symex.core import prog
+    from symex.env import Done
+    attempts = []
+    with env.installed():
+        R = w.fresh_real("R", 0)
+        w.assume_fast(w.lt(0, R))
+        baud = w.fresh_int("baud", 1)
+        gw = w.new(gateway_serial.AsyncSerialGateway, "/dev/ttyY", baud=baud, reconnect_timeout=R)
+        tr = gw.tasks.transport
+        made = []
+        gw.on_conn_made = C.Recorder2(made)
+
+        def create(a, k):
+            attempts.append((list(a), dict(k)))
+            if len(attempts) <= nfail:
+                return Done(exc=prog(serial.SerialException("no device")))
+            proto = w.call(a[1])
+            conn = C.FakeConn()
+            w.call(proto.connection_made, conn)
+            return Done((conn, proto))
+        env.add(serial_asyncio.create_serial_connection, create,
+                "serial_asyncio.create_serial_connection")
+        if cancel:
+            env.cancel_sleep_at = nfail - 1
+        w.info = {"link": "serial", "failures": nfail, "cancelled": cancel}
+        ended = "connected"
+        with env.installed():
+            try:
+                w.run_coro(w.call(tr.connect))
+            except asyncio.CancelledError:
+                ended = "cancelled"
+            except Exception as exc:
+                w.escaped(exc, "serial async_connect raised")
+        w.check(ended == ("cancelled" if cancel else "connected"), f"connect loop ended as {ended}")
+        for sl in env.async_sleeps:
+            w.check(w.eq(sl, R), "retry delay is not reconnect_timeout")
+        want = nfail if cancel else nfail + 1
+        w.check(len(attempts) == want, f"{len(attempts)} connect attempts, expected {want}")
+        for a, k in attempts:
+            w.check(len(a) >= 4 and a[2] == "/dev/ttyY" and w.truth(w.eq(a[3], baud)),
+                    "port / baud options do not reach the serial device")
+        if not cancel:
+            w.check(len(made) == 1 and tr.protocol.transport is not None,
+                    "connection not established after the device opened")
+        w.goal(ended)
+
+
 def async_connect_loop():
     """(c') asyncio connect loops: retry every reconnect_timeout until a connection is made; a
     cancellation ends the loop."""
@@ -486,10 +540,14 @@ def async_connect_loop():
         from mysensors import gateway_tcp
         from symex.core import prog
         from symex.env import Done
+        link = w.pick(["tcp", "serial"], "link")
         nfail = w.choose(3, "failures")
-        kind = w.pick(["oserror", "timeout"], "failure_kind") if nfail else "none"
+        kind = (w.pick(["oserror", "timeout"], "failure_kind") if link == "tcp" else
+                "serial-exception") if nfail else "none"
         cancel = w.flag("cancelled_while_waiting") if nfail else False
         env = C.make_env(w)
+        if link == "serial":
+            return serial_async_connect(w, env, nfail, cancel)
         with env.installed():
             R = w.fresh_real("R", 0)
             w.assume_fast(w.lt(0, R))
@@ -630,9 +688,11 @@ def build(tier):
                 goals=["connected"],
                 doc="sync_connect (TCP): link up after failures; timers restarted; reader started"),
         Harness("async-connect-loop", async_connect_loop(),
-                {"failures": "0..2 (OSError | TimeoutError)", "cancel": "while waiting"},
+                {"failures": "0..2 (OSError | TimeoutError | SerialException)", "cancel": "while "
+                 "waiting", "links": ["tcp (loop.create_connection)", "serial "
+                                      "(serial_asyncio.create_serial_connection scripted)"]},
                 goals=["connected", "cancelled"],
-                doc="async_connect (TCP): retries, delay, cancellation, watchdog armed"),
+                doc="async_connect (TCP and serial): retries, delay, cancellation, watchdog armed"),
         Harness("tcp-reader", tcp_reader(),
                 {"iterations": 3, "select": ["readable", "idle", "exceptional", "raises"],
                  "recv": ["data", "eof", "error"], "watchdog": ["ok", "raises"]},
